@@ -1,8 +1,8 @@
 #[cfg(test)]
-mod verif_demo_xlsxxml_c19 {
+mod verif_demo_xlsxxml_sst_skip {
     use super::*;
     use std::io::{Cursor, Write};
-    pub(super) fn mk(sst: Option<&str>, sheet_data: &str) -> Xlsx<Cursor<Vec<u8>>> {
+    fn mk(sst: Option<&str>, sheet_xml: &str) -> Result<Xlsx<Cursor<Vec<u8>>>, XlsxError> {
         let mut zw = zip::ZipWriter::new(Cursor::new(Vec::new()));
         let opt = zip::write::SimpleFileOptions::default().compression_method(zip::CompressionMethod::Stored);
         zw.start_file("xl/workbook.xml", opt).unwrap();
@@ -14,11 +14,12 @@ mod verif_demo_xlsxxml_c19 {
             zw.write_all(sst.as_bytes()).unwrap();
         }
         zw.start_file("xl/worksheets/sheet1.xml", opt).unwrap();
-        zw.write_all(sheet_data.as_bytes()).unwrap();
+        zw.write_all(sheet_xml.as_bytes()).unwrap();
         let cur = zw.finish().unwrap();
-        Xlsx::new(Cursor::new(cur.into_inner())).unwrap()
+        Xlsx::new(Cursor::new(cur.into_inner()))
     }
     const NS: &str = r#"xmlns="http://schemas.openxmlformats.org/spreadsheetml/2006/main""#;
+    const XNS: &str = r#"xmlns:x="http://schemas.openxmlformats.org/spreadsheetml/2006/main""#;
     fn sheet(rows: &str) -> String {
         format!(r#"<?xml version="1.0" encoding="UTF-8"?><worksheet {NS}><sheetData>{rows}</sheetData></worksheet>"#)
     }
@@ -27,25 +28,25 @@ mod verif_demo_xlsxxml_c19 {
     fn verif_demo_sst_item_without_text_shifts_all_later_indices() {
         // shared string table: item 0 has no <t> (empty item, legal CT_Rst), item 1 = "one", item 2 = "two"
         let sst = format!(r#"<?xml version="1.0" encoding="UTF-8"?><sst {NS} count="3" uniqueCount="3"><si/><si><t>one</t></si><si><t>two</t></si></sst>"#);
-        // A1 refers to item 1 ("one"), B1 to item 2 ("two")
-        let mut x = mk(Some(&sst), &sheet(r#"<row r="1"><c r="A1" t="s"><v>1</v></c></row>"#));
+        // A1 refers to item 1 ("one")
+        let mut x = mk(Some(&sst), &sheet(r#"<row r="1"><c r="A1" t="s"><v>1</v></c></row>"#)).unwrap();
+        // the table was loaded as ["one", "two"]: index 1 now designates "two"
+        assert_eq!(x.strings, vec!["one".to_string(), "two".to_string()]); // expected ["", "one", "two"]
         let r = x.worksheet_range("S").unwrap();
-        // expected "one"; the table was loaded as ["one", "two"] so index 1 designates "two"
-        assert_eq!(r.get_value((0, 0)), Some(&Data::String("two".to_string())));
-        assert_eq!(x.strings, vec!["one".to_string(), "two".to_string()]);
+        assert_eq!(r.get_value((0, 0)), Some(&Data::String("two".to_string()))); // expected "one"
     }
     #[test]
     fn verif_demo_sst_item_with_only_phonetic_properties_is_skipped() {
         let sst = format!(r#"<?xml version="1.0" encoding="UTF-8"?><sst {NS} count="2" uniqueCount="2"><si><phoneticPr fontId="1"/></si><si><t>one</t></si></sst>"#);
-        let x = mk(Some(&sst), &sheet(""));
+        let x = mk(Some(&sst), &sheet("")).unwrap();
         assert_eq!(x.strings, vec!["one".to_string()]); // expected ["", "one"]
     }
     #[test]
     #[should_panic]
     fn verif_demo_sst_last_index_out_of_range_after_shift_panics() {
-        // same table; B1 refers to the last item (index 2): the shifted table has only 2 entries -> index panic (C06 as well)
+        // same table; the cell refers to the last item (index 2): the shifted table has only 2 entries -> index panic (C06 as well)
         let sst = format!(r#"<?xml version="1.0" encoding="UTF-8"?><sst {NS} count="3" uniqueCount="3"><si/><si><t>one</t></si><si><t>two</t></si></sst>"#);
-        let mut x = mk(Some(&sst), &sheet(r#"<row r="1"><c r="A1" t="s"><v>2</v></c></row>"#));
+        let mut x = mk(Some(&sst), &sheet(r#"<row r="1"><c r="A1" t="s"><v>2</v></c></row>"#)).unwrap();
         let _ = x.worksheet_range("S");
     }
 }
